@@ -13,6 +13,9 @@ PARSER_FNS = ['next_lexem', 'drop_lexem', 'there_are_remaining_lexems', 'parse_w
               'parse_group_by', 'parse_order_by', 'parse_limit', 'parse_output_format', 'negate_expr_op']
 
 
+NOT_EXTRACTED = ['new', 'parse', 'parse_fields', 'parse_roots', 'parse_root_options', 'is_root_option_keyword']
+
+
 def build(scratch, specs, extra_text=''):
     S = lambda rel: Source(os.path.join(scratch, rel))
     lexer, ops, field, func, expr, query, parser = (S('src/lexer.rs'), S('src/operators.rs'), S('src/field.rs'),
@@ -66,6 +69,21 @@ def build(scratch, specs, extra_text=''):
     for f in PARSER_FNS:
         t, h = splice_fn(parser, f, 'Parser', specs.get(f))
         out.append(t); shas['Parser::' + f] = h
+    # helper functions of impl Parser that are not in the contract table (e.g. introduced by a refactoring):
+    # extracted verbatim WITHOUT a contract, so that callers are checked against "no information"
+    pit = parser.item('impl', 'Parser')
+    helpers = []
+    for m in parser.find_all(r'\bfn\s+(\w+)\s*[<(]', (pit['open'], pit['close'])):
+        name = m.group(1)
+        if name in PARSER_FNS or name in NOT_EXTRACTED or name in helpers:
+            continue
+        # only direct members of the impl block (brace depth 1)
+        depth = parser.mask[pit['open']:m.start()].count('{') - parser.mask[pit['open']:m.start()].count('}')
+        if depth != 1:
+            continue
+        helpers.append(name)
+        t, h = splice_fn(parser, name, 'Parser', dict(attrs=['#[verifier::exec_allows_no_decreases_clause]']))
+        out.append(t); shas['Parser::' + name + ' (uncontracted helper)'] = h
     out.append('}')
     out.append(extra_text)
     out.append('} // verus!\nfn main() {}\n')
